@@ -28,6 +28,8 @@ def firstBad : List (Unit → Verdict) → Verdict
 
 structure DocCase where
   doc : Option Doc
+  /-- a generated input with several top-level elements -/
+  frag : Option Items := none
   evs : List Ev
   res : Except Name Elem
 
@@ -38,10 +40,10 @@ structure HCase where
 def fuelMax : Nat := 100000
 
 def pDoc : P DocCase := fun ts => do
-  let (dom, ts) ← pOptDoc fuelMax ts
+  let ((dom, frag), ts) ← pDocOrFrag fuelMax ts
   let (evs, ts) ← pEvents ts
   let (res, ts) ← pResult fuelMax ts
-  pure (⟨dom, evs, res⟩, ts)
+  pure ({ doc := dom, frag := frag, evs := evs, res := res }, ts)
 
 def pRender : P (Options × Name) := fun ts => do
   let (o, ts) ← pOptions ts
@@ -119,11 +121,21 @@ def domsOf (docs : List DocCase) : Option (List Node) := docs.mapM (·.dom)
 /-- the recorded events are what `Node.events` says a reader reports for the generated document -/
 def domEventsOk (docs : List DocCase) : Verdict :=
   firstBad ((docs.zipIdx).map fun (d, i) => fun _ =>
-    match d.doc with
-    | none => .ok
-    | some n =>
+    match d.doc, d.frag with
+    | some n, _ =>
       if normEvents n.events == normEvents d.evs then .ok
-      else .corr s!"dom-events doc={i}")
+      else .corr s!"dom-events doc={i}"
+    | none, some is =>
+      if normEvents (fragEvents is) == normEvents d.evs then .ok
+      else .corr s!"dom-events fragment={i}"
+    | none, none => .ok)
+
+/-- the top-level items of a generated input -/
+def DocCase.topItems (d : DocCase) : Option Items :=
+  match d.doc, d.frag with
+  | some doc, _ => some doc.items
+  | none, some is => some is
+  | none, none => none
 
 def sameRootName (doms : List Node) : Bool :=
   match doms with
